@@ -35,7 +35,7 @@ PROPERTY = "C14"
 LEVEL = "exploration"
 EXHAUSTIVE = {"quick": False, "thorough": False}
 MANIFEST = {
-    "level_text": "Seasons: enumeration of the finite domain (thorough: every year -1000..3000 x 4 seasons; quick: a seed-rotated quarter plus the edge years). Equation of time, rise_set and times_rise_transit_set: randomised search (Hypothesis; day-by-day sweeps for the equation of time) against an observer-geometry oracle. Finds violations; does not prove absence outside the enumerated season clause.",
+    "level_text": "Seasons: enumeration of the finite domain (thorough: every year -1000..3000 x 4 seasons; quick: a seed-rotated quarter plus the edge years). Equation of time, rise_set and times_rise_transit_set: randomised search (Hypothesis; day-by-day sweeps for the equation of time) against an observer-geometry oracle. Finds violations; does not prove absence outside the enumerated season clause. The seconds-field carry of the equation of time is examined at consecutive doubles round whole-minute crossings.",
     "level_note": "The Sun's position, obliquity, nutation and sidereal time are the library's own (the property says so); the rotations to the equator and the horizon, the interpolation of the synthetic body, the UTC->TT table and the day-by-day walk are the harness's. Tolerances as stated in the property.",
     "technique": "enumeration (seasons) + property-based testing with sweeps and a geometric reference model",
 }
@@ -55,7 +55,8 @@ RULE = ("season: one case = a block of consecutive years (all four seasons of ea
         "speed <= 1.5 deg/d, a direction and a second difference), observer latitude +-89, "
         "longitude +-180, h0 in {-0.5667, -0.8333, 0.125} or uniform +-2, Delta T 0..200 s, "
         "sidereal time 0..360; non-trivial: times returned for a moving body (>= 0.1 deg/d) "
-        "away from grazing, or a no-times answer.  Distinct = distinct case.")
+        "away from grazing, or a no-times answer.  Distinct = distinct case."
+        " In every season block the four results of the first year are recycled through set() and asked again. season_range also draws arbitrary-precision ints (10^5..10^1300, 2^31..2^4096, both signs). eot_carry: Hypothesis start epoch; the walk is continued to the next instant at which the equation of time passes a whole (non-zero) minute, which is bisected to adjacent doubles; the 60 (or 200) doubles on either side must render within 1 ms of that minute; every double is one evaluation and non-trivial.")
 ASSUMPTIONS = [
     "rise_set results are UTC (docstring): the sidereal time is evaluated at the returned "
     "instant, the Sun at that instant + (TT-UTC) from a literal table of the 27 IERS leap "
